@@ -45,6 +45,16 @@ func Run(target, scope, newDir string, fSys filesys.FileSystem) (string, error) 
 		return "", errors.Wrap(err)
 	}
 	defer func() { _ = ldr.Cleanup() }()
+	// A panic below (log.Panicf on a failed re-validation of an already validated path) must not
+	// leave a partially written destination behind either.
+	defer func() {
+		if r := recover(); r != nil {
+			if errCleanup := fSys.RemoveAll(args.NewDir.String()); errCleanup != nil {
+				log.Printf("unable to clean localize destination: %s", errCleanup)
+			}
+			panic(r)
+		}
+	}()
 
 	toDst, err := filepath.Rel(args.Scope.String(), args.Target.String())
 	if err != nil {
